@@ -61,6 +61,11 @@ def generated_items(seed, tier, bias, scale=1.0):
         for it in gen.fold_programs(random.Random(seed), 12):
             if it["name"].startswith(("dead;", "cond;", "fold;", "foldc;", "fold2;", "foldu;", "foldu2;")):
                 items.append(dict(name="fold:" + it["name"], text=it["text"]))
+    if bias in ("own", "wf", "layouts"):
+        # postfix ++/-- on registers (source, read-write, pair, predicate operands), first use / after a use / value unused
+        for k, text in enumerate(["{ RdV = RsV++; }", "{ RsV--; RdV = RsV + RsV; }", "{ RdV = RsV; ReV = RsV++; }", "{ RxV++; RdV = RxV; }", "{ RddV = RssV++; ReV = 1; }", "{ RdV = RxV-- + RtV; }",
+                                  "{ RsV++; }", "{ RdV = RsV + RtV; RtV--; ReV = RtV; }", "{ if (RsV++ > 0) { RdV = RsV; } else { RdV = RtV--; } }", "{ for (i = 0; i < 2; i++) { RxV++; } RdV = RxV; }"]):
+            items.append(dict(name=f"postreg{k}", text=text))
     if bias == "own":
         # expression statements without effect (listed finding valueless_expression_statement) and compound shifts with converted operands
         for k, text in enumerate(["{ RsV + 1; RdV = RtV; }", "{ int32_t q = RsV; q * 2; RdV = q; }", "{ if (RsV) { RtV; } RdV = 1; }"]):
